@@ -203,7 +203,7 @@ func (g *Gen) intExpr(env []binding, d int) r.Val {
 	if d >= g.O.MaxDepth {
 		return g.leafInt(env)
 	}
-	switch g.pick("intk", 24) {
+	switch g.pick("intk", 25) {
 	case 0, 1:
 		return g.leafInt(env)
 	case 2:
@@ -337,6 +337,8 @@ func (g *Gen) intExpr(env []binding, d int) r.Val {
 		}
 		lam = append(lam, g.Expr(TInt, in, d+1))
 		return r.L(r.L(lam...), g.Expr(TInt, env, d+1))
+	case 23:
+		return g.factory(env, d)
 	default:
 		g.kind("call")
 		return r.L(sym("1+"), g.Expr(TInt, env, d+1))
@@ -374,6 +376,30 @@ func (g *Gen) counter(env []binding, d int) r.Val {
 	return r.L(sym("let"), r.L(r.L(sym(fv), mk), r.L(sym(cv), g.Expr(TInt, env, d+1))),
 		r.L(sym("funcall"), sym(fv), g.Expr(TInt, inner, d+1)),
 		r.L(sym("+"), r.L(sym("funcall"), sym(fv), g.lit()), sym(cv)))
+}
+
+// factory: one (lambda ...) form is evaluated once per element of a list, every time in another binding of the variable
+// it closes over, and all the closures are kept and called afterwards, the first one last: every closure must still
+// see (and update) the binding it was created in.
+func (g *Gen) factory(env []binding, d int) r.Val {
+	g.kind("closure-factory")
+	g.Feat["closure"] = true
+	cv := g.varName()
+	fv := "k" + g.varName()
+	var body r.Val
+	if g.pick("factorysetq", 2) == 0 {
+		g.Feat["setq"] = true
+		body = r.L(sym("lambda"), r.L(sym("n")), r.L(sym("setq"), sym(cv), r.L(sym("+"), sym(cv), sym("n"))), g.mark(sym(cv)))
+	} else {
+		body = r.L(sym("lambda"), r.L(sym("n")), g.mark(r.L(sym("+"), sym(cv), sym("n"))))
+	}
+	mk := r.L(sym("mapcar"), r.L(sym("lambda"), r.L(sym(cv)), body), r.L(sym("list"), g.Expr(TInt, env, d+1), g.Expr(TInt, env, d+1), g.lit()))
+	call := func(sel r.Val, arg r.Val) r.Val { return r.L(sym("funcall"), sel, arg) }
+	first := r.L(sym("car"), sym(fv))
+	second := r.L(sym("car"), r.L(sym("cdr"), sym(fv)))
+	third := r.L(sym("car"), r.L(sym("cdr"), r.L(sym("cdr"), sym(fv))))
+	return r.L(sym("let"), r.L(r.L(sym(fv), mk)),
+		r.L(sym("+"), call(third, g.lit()), call(second, g.lit()), call(first, g.lit()), call(second, g.lit()), call(first, g.lit())))
 }
 
 func (g *Gen) loopAcc(env []binding, d int) r.Val {
